@@ -4620,6 +4620,34 @@ where
         self.as_triangulation().vertex_coords(v)
     }
 
+    /// Wraps the coordinates of a vertex into the fundamental domain when this triangulation
+    /// carries toroidal topology metadata, so incremental insertions are canonicalized the same
+    /// way as the vertices the builder started from. Other topologies return the vertex as is.
+    fn canonicalize_vertex_for_insertion(
+        &self,
+        vertex: Vertex<K::Scalar, U, D>,
+    ) -> Result<Vertex<K::Scalar, U, D>, InsertionError> {
+        if !matches!(self.tri.global_topology, GlobalTopology::Toroidal { .. }) {
+            return Ok(vertex);
+        }
+        use crate::geometry::traits::coordinate::Coordinate;
+        use crate::topology::traits::global_topology_model::GlobalTopologyModel;
+
+        let mut coords = *vertex.point().coords();
+        self.tri
+            .global_topology
+            .model()
+            .canonicalize_point_in_place(&mut coords)
+            .map_err(|e| InsertionError::CavityFilling {
+                message: format!("Failed to canonicalize vertex for toroidal insertion: {e}"),
+            })?;
+        Ok(Vertex::new_with_uuid(
+            crate::geometry::point::Point::new(coords),
+            vertex.uuid(),
+            vertex.data,
+        ))
+    }
+
     fn ensure_spatial_index_seeded(&mut self) {
         if self.spatial_index.is_some() {
             return;
@@ -4726,6 +4754,7 @@ where
         K::Scalar: ScalarSummable,
     {
         self.ensure_spatial_index_seeded();
+        let vertex = self.canonicalize_vertex_for_insertion(vertex)?;
 
         // Fully delegate to Triangulation layer
         // Triangulation handles:
@@ -4840,6 +4869,7 @@ where
         K::Scalar: ScalarSummable,
     {
         self.ensure_spatial_index_seeded();
+        let vertex = self.canonicalize_vertex_for_insertion(vertex)?;
 
         // Transactional guard: post-steps (flip repair and/or global Delaunay checks) can fail.
         // If they do, rollback to leave the triangulation unchanged.
